@@ -207,9 +207,16 @@ static void apply(OpKind op, unsigned i, unsigned j, unsigned a)
     delete ures; delete umapL; delete umapR; umapL = new AutBase::StateToStateMap(); umapR = new AutBase::StateToStateMap();
     ures = new Aut(Aut::Union(*h[i], *h[j], umapL, umapR));
     bool ok = readUnion(usnapL, usnapR, usnapFL, usnapFR); CHECK(ok, 60);
-    // the result is the disjoint union of the two operand values
-    for (unsigned r = 0; r < NR; ++r) { CHECK(usnapL[r] == val[i].pres[r], 61); CHECK(usnapR[r] == val[j].pres[r], 62); }
-    CHECK(usnapFL == val[i].fin, 63); CHECK(usnapFR == val[j].fin, 64);
+    // the result is the disjoint union of the two operand values, read through the reported maps: nothing invented, and nothing
+    // lost that an accepting run needs (as in harness/C02: an implementation that leaves out useless rules or final states
+    // without rules is as correct; the complete image rule for rule only with -DSTRICT_IMPL).  What was read is the snapshot
+    // the kept result is compared with after every later step.
+    { RS::Val loL = RS::withoutUseless(val[i]), loR = RS::withoutUseless(val[j]);
+#ifdef STRICT_IMPL
+      loL = val[i]; loR = val[j];
+#endif
+      for (unsigned r = 0; r < NR; ++r) { CHECK((!loL.pres[r] || usnapL[r]) && (!usnapL[r] || val[i].pres[r]), 61); CHECK((!loR.pres[r] || usnapR[r]) && (!usnapR[r] || val[j].pres[r]), 62); }
+      CHECK((loL.fin & ~usnapFL) == 0 && (usnapFL & ~val[i].fin) == 0, 63); CHECK((loR.fin & ~usnapFR) == 0 && (usnapFR & ~val[j].fin) == 0, 64); }
     break; }
   case REINDEX: { Rotate f(a); h[i]->ReindexStates(*h[j], f);        // adds the renamed rules and final states of i to j
     for (unsigned r = 0; r < NR; ++r) { unsigned q = rotated(r, a); val[j].pres[q] = val[j].pres[q] | val[i].pres[r]; }
